@@ -237,3 +237,98 @@ func PathTemplateVars(p string) []string {
 		p = p[i+j+1:]
 	}
 }
+
+// ObjectMembers flattens an object schema for inspection: the property schemas and the required names that hold for every
+// instance, collected from the schema itself, recursively from the members of its allOf (a $ref is followed inside doc), and
+// from its oneOf when every branch agrees (a property is reported when all branches declare it — with that schema when they agree, else as anyOf of the branch schemas without a pointer — a name
+// is required when all branches require it): that is how a flattened discriminated oneof publishes the common fields.
+// ptrs gives the JSON pointer of each property schema inside doc (for a oneOf, inside its first branch).
+func ObjectMembers(doc any, ptr string) (props map[string]any, ptrs map[string]string, required map[string]bool) {
+	return objectMembers(doc, ptr, map[string]bool{})
+}
+
+func objectMembers(doc any, ptr string, seen map[string]bool) (props map[string]any, ptrs map[string]string, required map[string]bool) {
+	props, ptrs, required = map[string]any{}, map[string]string{}, map[string]bool{}
+	var walk func(p string)
+	walk = func(p string) {
+		if seen[p] {
+			return
+		}
+		seen[p] = true
+		defer delete(seen, p)
+		v, ok := Ptr(doc, p)
+		if !ok {
+			return
+		}
+		m, ok := v.(map[string]any)
+		if !ok {
+			return
+		}
+		if ref, ok := m["$ref"].(string); ok && strings.HasPrefix(ref, "#/") {
+			walk(ref[1:])
+		}
+		if pm, ok := m["properties"].(map[string]any); ok {
+			for k, sv := range pm {
+				if _, dup := props[k]; !dup {
+					props[k] = sv
+					ptrs[k] = p + "/properties/" + PtrEscape(k)
+				}
+			}
+		}
+		if rl, ok := m["required"].([]any); ok {
+			for _, x := range rl {
+				if s, ok := x.(string); ok {
+					required[s] = true
+				}
+			}
+		}
+		if all, ok := m["allOf"].([]any); ok {
+			for i := range all {
+				walk(fmt.Sprintf("%s/allOf/%d", p, i))
+			}
+		}
+		if one, ok := m["oneOf"].([]any); ok && len(one) > 0 {
+			var bp []map[string]any
+			var bptr []map[string]string
+			var br []map[string]bool
+			for i := range one {
+				a, b, c := objectMembers(doc, fmt.Sprintf("%s/oneOf/%d", p, i), seen)
+				bp, bptr, br = append(bp, a), append(bptr, b), append(br, c)
+			}
+			for k, sv := range bp[0] {
+				same, everywhere := true, true
+				alts := []any{sv}
+				want, _ := json.Marshal(sv)
+				for _, o := range bp[1:] {
+					got, _ := json.Marshal(o[k])
+					if _, has := o[k]; !has {
+						everywhere = false
+					} else if string(got) != string(want) {
+						same = false
+						alts = append(alts, o[k])
+					}
+				}
+				if _, dup := props[k]; dup || !everywhere {
+					continue
+				}
+				if same {
+					props[k] = sv
+					ptrs[k] = bptr[0][k]
+				} else {
+					props[k] = map[string]any{"anyOf": alts} // declared by every branch, differently (e.g. the discriminator): no pointer
+				}
+			}
+			for k := range br[0] {
+				all := true
+				for _, o := range br[1:] {
+					all = all && o[k]
+				}
+				if all {
+					required[k] = true
+				}
+			}
+		}
+	}
+	walk(ptr)
+	return
+}
